@@ -169,7 +169,7 @@ def main(argv=None):
         return 0 if p.returncode == 0 else 3
 
     core.load_contracts()
-    timeout_ms = 10000 if tier == "quick" else 120000
+    timeout_ms = 30000 if tier == "quick" else 120000  # generous: verdicts must not flip when all cores are busy (slowest obligation ~6 s idle)
     obs, fam_errors, ctxs = core.run_families(pid, tier, only=args.only)
     obs = dedupe(obs)
     core.discharge_all(obs, timeout_ms, jobs=int(os.environ.get("FJVC_JOBS", "0")) or None)
